@@ -67,6 +67,90 @@ def segment_host(name, hosts):
     return best
 
 
+# The universe of what a task body can raise: class x constructor arguments (structured; the generator draws from it).
+#   builtin Exception classes, incl. the OSError family (TimeoutError, FileNotFoundError, ...: a handler placed before `except
+#   Exception` for one of them swallows the failure), StopIteration (a generator body turns it into RuntimeError), MemoryError,
+#   RecursionError, warnings, ExceptionGroup; user classes derived from Exception / OSError / TimeoutError / two bases;
+#   `hostile`: a user Exception whose __repr__/__str__ raise (execute_sequence formats `repr(e)` inside its handler: the handler
+#   itself raises and the worker process ends with exit code 1 -- the model's outcome `base`);
+#   BaseException classes that are not Exception (outcome `base`: nothing is reported by the worker, the process ends, exit code 1):
+#   KeyboardInterrupt, GeneratorExit, asyncio.CancelledError, a user BaseException subclass.
+EXC_BUILTIN = ["RuntimeError", "ValueError", "KeyError", "ZeroDivisionError", "OSError", "AssertionError", "TimeoutError", "FileNotFoundError",
+               "ConnectionResetError", "BrokenPipeError", "PermissionError", "InterruptedError", "BlockingIOError", "ChildProcessError", "MemoryError",
+               "RecursionError", "NotImplementedError", "StopIteration", "StopAsyncIteration", "ArithmeticError", "OverflowError", "LookupError",
+               "IndexError", "AttributeError", "TypeError", "NameError", "ImportError", "ModuleNotFoundError", "EOFError", "BufferError",
+               "UnicodeError", "UserWarning", "DeprecationWarning", "ResourceWarning", "SyntaxError", "SystemError", "ReferenceError"]
+EXC_USER = ["Custom", "CustomOS", "CustomTimeout", "CustomTwoBases", "CustomSlots", "CustomInitArgs", "Group"]
+EXC_HOSTILE = ["HostileRepr"]
+EXC_KINDS = EXC_BUILTIN + EXC_USER
+BASE_KINDS = ["KeyboardInterrupt", "GeneratorExit", "CancelledError", "CustomBase"]
+EXC_ARGS = ["boom", "none", "int", "tuple", "bytes", "nonascii", "surrogate", "long", "dict", "nested", "object", "errno"]
+
+
+def make_exception(kind, argkind="boom"):
+    """the exception object a task body raises: class `kind` constructed with arguments of kind `argkind`"""
+    import builtins
+
+    class Opaque:
+        def __repr__(self):
+            return "<opaque>"
+    args = {"boom": ("boom",), "none": (), "int": (7,), "tuple": ((1, "x", None),), "bytes": (b"\xff\x00boom",), "nonascii": ("b\u00f6\u00f6m \u2603",),
+            "surrogate": ("bad \udcff char",), "long": ("x" * 20000,), "dict": ({"k": [1, 2]}, {3}), "nested": (ValueError("inner", KeyError(1)),),
+            "object": (Opaque(),), "errno": (110, "Connection timed out")}[argkind]
+    if kind == "Custom":
+        class MyErr(Exception):
+            pass
+        return MyErr(*args)
+    if kind == "CustomOS":
+        class MyOSErr(OSError):
+            pass
+        return MyOSErr(*args)
+    if kind == "CustomTimeout":
+        class MyTimeout(TimeoutError):
+            pass
+        return MyTimeout(*args)
+    if kind == "CustomTwoBases":
+        class MyBoth(TimeoutError, ValueError):
+            pass
+        return MyBoth(*args)
+    if kind == "CustomSlots":
+        class MySlots(Exception):
+            __slots__ = ("payload",)
+
+            def __init__(self, *a):
+                super().__init__()
+                self.payload = a
+        return MySlots(*args)
+    if kind == "CustomInitArgs":
+        class MyInit(Exception):
+            def __init__(self, a=None, *rest, flag=False):      # not reconstructible from .args alone
+                super().__init__("fixed message")
+                self.a = a
+        return MyInit(*args)
+    if kind == "Group":
+        return ExceptionGroup("group", [ValueError(*args), TimeoutError("t")])
+    if kind == "HostileRepr":
+        class Hostile(Exception):
+            def __repr__(self):
+                raise RuntimeError("repr of the exception raises")
+
+            def __str__(self):
+                raise RuntimeError("str of the exception raises")
+        return Hostile(*args)
+    if kind == "CustomBase":
+        class MyBase(BaseException):
+            pass
+        return MyBase(*args)
+    if kind == "CancelledError":
+        import asyncio
+        return asyncio.CancelledError(*args)
+    cls = getattr(builtins, kind)
+    try:
+        return cls(*args)
+    except Exception:
+        return cls("boom")          # classes with a fixed constructor signature
+
+
 # ----------------------------------------------------------------------------- job (runs in workers)
 
 def make_job(case):
@@ -81,6 +165,7 @@ def make_job(case):
     names = host_names(case) if "uid" in case else []
     pidfile = case["pidfile"]
     datagram = bytes.fromhex(SHM_GARBAGE[case.get("datagram", "unknown-tag")])
+    exc_kind, exc_args = case.get("exc"), case.get("exc_args", "boom")     # fault `raise`: what is raised (default RuntimeError)
 
     def point(task, at):
         # the crash point: executed inside the worker process
@@ -120,6 +205,9 @@ def make_job(case):
         if fault in ("raise", "exit", "kill9"):
             _mark(_me)
         if fault == "raise":
+            if exc_kind:
+                from ekw.c05_cluster import make_exception as _mk      # one class of the universe per run
+                raise _mk(exc_kind, exc_args)
             raise RuntimeError("c05-injected-task-failure")
         if fault == "exit":
             _y.exit(code)
@@ -380,8 +468,15 @@ def alloc_port_base(span=32):
     raise RuntimeError("no free port range found")
 
 
+_RUN_ENV = "EKW_C05_RUN"
+_sid_uid = {}
+
+
 def _session_pids(sid):
+    """every live process of the run: the processes of the runner's session AND every process that carries the run's marker in its
+    environment (inherited across fork/exec: a child that has left the session with setsid is still seen)"""
     res = []
+    marker = (_RUN_ENV + "=" + _sid_uid[sid]).encode() if sid in _sid_uid else None
     for d in os.listdir("/proc"):
         if not d.isdigit():
             continue
@@ -390,7 +485,14 @@ def _session_pids(sid):
                 s = f.read()
             rest = s[s.rindex(")") + 2:].split()
             state, _ppid, _pgrp, session = rest[0], int(rest[1]), int(rest[2]), int(rest[3])
-            if session == sid and state not in ("Z", "X"):
+            mine = session == sid
+            if not mine and marker is not None and state not in ("Z", "X"):
+                try:
+                    with open(f"/proc/{d}/environ", "rb") as f:
+                        mine = marker in f.read().split(b"\0")
+                except OSError:
+                    mine = False
+            if mine and state not in ("Z", "X"):
                 with open(f"/proc/{d}/cmdline") as f:
                     cmd = f.read().replace("\0", " ")[:120]
                 res.append((int(d), cmd))
@@ -406,7 +508,7 @@ def _is_tracker(cmd):
 def _shm_segments(uid):
     tok = run_token(uid)
     try:
-        return sorted(f for f in os.listdir("/dev/shm") if f.startswith("sCasc") and tok in f)
+        return sorted(f for f in os.listdir("/dev/shm") if tok in f)       # whatever its prefix: every name of the run carries the token
     except OSError:
         return []
 
@@ -461,11 +563,23 @@ def _start_reaper(sid, uid, tmax):
         return None
 
 
+def load_scale():
+    try:
+        return max(1.0, min(3.0, os.getloadavg()[0] / (os.cpu_count() or 1)))
+    except OSError:
+        return 1.0
+
+
 def run_case(case, deadline_s=30.0, settle_s=6.0, module="ekw.c05_cluster"):
     """Run one (fault) run. Returns the observation dict:
     ended: ok|error|hang|infra ; outputs ; leftover_procs ; leftover_shm ; wall.
     `module`: the runner module started as `python -m <module> <case json>` (it calls its own runner_main; used by ekw.c01_real)."""
     case = dict(case)
+    # wall-clock allowances are stated for a machine that is not oversubscribed; when more processes want to run than there are
+    # cores (load average / cores > 1) every process of the cluster gets that much less CPU: the allowances scale with the
+    # oversubscription (at most x3). The graces of the code under test are constants; the scale is recorded in the observation.
+    scale = load_scale() if module == "ekw.c05_cluster" else 1.0        # (ekw.c01_real has its own patience ladder)
+    deadline_s, settle_s = deadline_s * scale, settle_s * scale
     uid = "v5%x%x" % (os.getpid() % 0xFFFF, int(time.time() * 1000) % 0xFFFFFF)
     if case.get("names"):
         uid = "v5%04x%04x" % (os.getpid() % 0xFFFF, int(time.time() * 1000) % 0xFFFF)      # short names: room for the md5 digits in the shm ids
@@ -473,11 +587,13 @@ def run_case(case, deadline_s=30.0, settle_s=6.0, module="ekw.c05_cluster"):
     case["port"] = alloc_port_base()
     case["pidfile"] = f"/tmp/{uid}.pids"
     env = dict(os.environ)
+    env[_RUN_ENV] = uid
     t0 = time.time()
     proc = subprocess.Popen([sys.executable, "-m", module, json.dumps(case)], stdout=subprocess.PIPE,
                             stderr=(open(case["debug"], "w") if case.get("debug") else subprocess.DEVNULL), stdin=subprocess.DEVNULL, env=env, start_new_session=True)
     sid = proc.pid
-    reaper = _start_reaper(sid, uid, deadline_s + settle_s + 60)
+    _sid_uid[sid] = uid
+    reaper = _start_reaper(sid, uid, 4 * deadline_s + settle_s + 60)
     obs = {"ended": "hang", "error": None, "outputs": {}, "leftover_procs": [], "leftover_shm": [], "phase": None}
     try:
         # read ONE result line with a deadline (EOF would come only when every forked child has exited)
@@ -485,7 +601,27 @@ def run_case(case, deadline_s=30.0, settle_s=6.0, module="ekw.c05_cluster"):
         buf = b""
         fd = proc.stdout.fileno()
         tend = t0 + deadline_s
+
+        def _mtime(path):
+            try:
+                return os.path.getmtime(path)
+            except OSError:
+                return None
+        markers = module == "ekw.c05_cluster"      # (runs of ekw.c01_real write no markers and keep the plain deadline)
+        if markers:
+            tend = t0 + 2 * deadline_s
         while b"\n" not in buf:
+            # "ends within a bounded time" counts from the FAILURE: once the fault has been injected (marker file written by the
+            # task body) the run has deadline_s from that moment. Before that: the cluster has 2 x deadline_s to start its job
+            # (start-up alone takes > 30 s on a heavily loaded machine; a run that has not entered its first task body by then is
+            # reported as `infra`, never as a hang), and a started job has 2 x deadline_s to reach the crash point or to finish.
+            # The whole run is capped at 4 x deadline_s.
+            if markers:
+                tf_, ts_ = _mtime(case["pidfile"] + ".fault"), _mtime(case["pidfile"] + ".started")
+                if tf_ is not None:
+                    tend = min(tf_ + deadline_s, t0 + 4 * deadline_s)
+                elif ts_ is not None:
+                    tend = min(ts_ + 2 * deadline_s, t0 + 4 * deadline_s)
             left = tend - time.time()
             if left <= 0:
                 break
@@ -505,6 +641,9 @@ def run_case(case, deadline_s=30.0, settle_s=6.0, module="ekw.c05_cluster"):
         elif time.time() >= tend:
             obs["ended"] = "hang"
             obs["alive_at_deadline"] = len(_session_pids(sid))
+            if markers and not os.path.exists(case["pidfile"] + ".started"):
+                obs["ended"] = "infra"
+                obs["error"] = f"start-up: the job had not started {round(time.time() - t0)} s after the runner was launched ({obs['alive_at_deadline']} processes alive)"
             if case.get("debug"):
                 for p_, _c in _session_pids(sid):
                     try:
@@ -572,6 +711,8 @@ def run_case(case, deadline_s=30.0, settle_s=6.0, module="ekw.c05_cluster"):
                 reaper.wait(timeout=5)
             except Exception:
                 pass
+    _sid_uid.pop(sid, None)
+    obs["load_scale"] = round(scale, 2)
     obs["wall"] = round(time.time() - t0, 2)
     return obs
 
